@@ -65,9 +65,11 @@
 package main
 
 import (
+	"bytes"
 	"fmt"
 	"go/ast"
 	"go/constant"
+	"go/format"
 	"go/token"
 	"go/types"
 	"os"
@@ -133,6 +135,7 @@ var enumConst = map[string]string{
 	"AccessTypeReadWrite": "AccReadWrite",
 }
 
+var usesDefsOf = map[string]bool{}
 var structs = map[string]*types.Struct{} // translated struct types of package dbc
 
 func namedName(t types.Type) string {
@@ -1357,6 +1360,143 @@ const prelude = `Section Translated.
 
 `
 
+func srcOf(n ast.Node) string {
+	var b bytes.Buffer
+	if err := format.Node(&b, fset, n); err != nil {
+		failAt(n, "cannot print: %v", err)
+	}
+	return strings.Join(strings.Fields(b.String()), "")
+}
+
+// translateParse: func (p *Parser) Parse() (err Error). The method must have EXACTLY this shape (anything else is an error):
+//
+//	defer func() { if r := recover(); r != nil { if errParse, ok := r.(*parseError); ok { err = errParse } else { panic(r) } } }()
+//	for <cond> { var def Def; switch p.peekKeyword() { case K: def = &T{} ... default: def = &U{} }; def.parseFrom(p); p.defs = append(p.defs, def) }
+//	return nil
+//
+// Reading: the outcome of Parse together with Defs(): the panic of a *parseError (PErr) is recovered = Err pos kind defs-so-far,
+// any other panic is re-raised = Panic; `def = &T{}; def.parseFrom(p); p.defs = append(p.defs, def)` = the final value of
+// the fresh T (T_parseFrom [p.defs] T_zero) read as a definition of Dbc/Ast.v (ParserGlue.T_to_def), appended to p.defs.
+func translateParse(pkg *packages.Package, w *strings.Builder, files map[string]bool) {
+	var fd *ast.FuncDecl
+	for _, f := range pkg.Syntax {
+		for _, d := range f.Decls {
+			if x, ok := d.(*ast.FuncDecl); ok && x.Recv != nil && x.Name.Name == "Parse" && x.Body != nil {
+				if pt, ok := info.TypeOf(x.Recv.List[0].Type).(*types.Pointer); ok && namedName(pt.Elem()) == "Parser" {
+					fd = x
+				}
+			}
+		}
+	}
+	if fd == nil {
+		panic(terr{"pkg/dbc: method (*Parser).Parse not found"})
+	}
+	pos := fset.Position(fd.Pos())
+	rel, _ := filepath.Rel(root, pos.Filename)
+	files[rel] = true
+	pn := fd.Recv.List[0].Names[0].Name
+	if srcOf(fd.Type) != "func()(errError)" || len(fd.Body.List) != 3 {
+		failAt(fd, "Parse: signature / number of statements differs from the translated shape")
+	}
+	const wantDefer = "deferfunc(){ifr:=recover();r!=nil{iferrParse,ok:=r.(*parseError);ok{err=errParse}else{panic(r)}}}()"
+	if srcOf(fd.Body.List[0]) != wantDefer {
+		failAt(fd.Body.List[0], "Parse: the deferred recover differs from `recover only *parseError, re-panic anything else`")
+	}
+	if srcOf(fd.Body.List[2]) != "returnnil" {
+		failAt(fd.Body.List[2], "Parse: final statement is not `return nil`")
+	}
+	loop, ok := fd.Body.List[1].(*ast.ForStmt)
+	if !ok || loop.Init != nil || loop.Post != nil || loop.Cond == nil || len(loop.Body.List) != 4 {
+		failAt(fd.Body.List[1], "Parse: loop shape")
+	}
+	c := &mctx{fn: "Parser_Parse", helper: true, parser: pn, vars: map[string]string{}}
+	cond := c.cond(loop.Cond, "ret true", "ret false")
+	if srcOf(loop.Body.List[0]) != "vardefDef" {
+		failAt(loop.Body.List[0], "Parse: expected `var def Def`")
+	}
+	sw, ok := loop.Body.List[1].(*ast.SwitchStmt)
+	if !ok || sw.Init != nil || sw.Tag == nil || srcOf(sw.Tag) != pn+".peekKeyword()" {
+		failAt(loop.Body.List[1], "Parse: expected `switch p.peekKeyword()`")
+	}
+	if srcOf(loop.Body.List[2]) != "def.parseFrom("+pn+")" || srcOf(loop.Body.List[3]) != pn+".defs=append("+pn+".defs,def)" {
+		failAt(loop.Body.List[2], "Parse: expected `def.parseFrom(p); p.defs = append(p.defs, def)`")
+	}
+	arm := func(cc *ast.CaseClause) string {
+		if len(cc.Body) != 1 {
+			failAt(cc, "Parse: case body is not a single `def = &T{}`")
+		}
+		as, ok := cc.Body[0].(*ast.AssignStmt)
+		if !ok || as.Tok != token.ASSIGN || len(as.Lhs) != 1 || len(as.Rhs) != 1 || srcOf(as.Lhs[0]) != "def" {
+			failAt(cc, "Parse: case body is not a single `def = &T{}`")
+		}
+		u, ok := as.Rhs[0].(*ast.UnaryExpr)
+		if !ok || u.Op != token.AND {
+			failAt(cc, "Parse: case body is not a single `def = &T{}`")
+		}
+		cl, ok := u.X.(*ast.CompositeLit)
+		if !ok || len(cl.Elts) != 0 {
+			failAt(cc, "Parse: case body is not a single `def = &T{}`")
+		}
+		tn := namedName(info.TypeOf(cl))
+		if _, ok := structs[tn]; !ok {
+			failAt(cc, "Parse: %s has no translated parseFrom", tn)
+		}
+		pd := ""
+		if usesDefsOf[tn] {
+			pd = " p_defs"
+		}
+		return fmt.Sprintf("run_as %s_to_def (%s_parseFrom%s %s_zero)", tn, tn, pd, tn)
+	}
+	var def *ast.CaseClause
+	disp := ""
+	closing := ""
+	for _, st := range sw.Body.List {
+		cc := st.(*ast.CaseClause)
+		if cc.List == nil {
+			def = cc
+			continue
+		}
+		if def != nil {
+			failAt(cc, "Parse: default is not the last clause")
+		}
+		if len(cc.List) != 1 {
+			failAt(cc, "Parse: case with several keywords")
+		}
+		k, ok := constString(cc.List[0])
+		if !ok {
+			failAt(cc, "Parse: case is not a constant keyword")
+		}
+		disp += fmt.Sprintf("if bytes_eqb kw %s then %s\n    else ", k, arm(cc))
+	}
+	if def == nil {
+		failAt(sw, "Parse: switch without default")
+	}
+	disp += arm(def) + closing
+	fmt.Fprintf(w, "  (** %s:%d method Parse of Parser: the keyword switch, then the loop (outcome = Parse's error with Defs()) *)\n", rel, pos.Line)
+	fmt.Fprintf(w, "  Definition Parser_Parse_dispatch (p_defs : list def) (kw : bytes) : M def :=\n    %s.\n\n", disp)
+	fmt.Fprintf(w, `  Fixpoint Parser_Parse_loop (f : nat) (p_defs : list def) (st : pstate) {struct f} : outcome :=
+    match f with
+    | O => OutOfFuel
+    | S f' =>
+      match (%s) st with
+      | POk true st1 =>
+        match (plet kw <- P_peek_keyword; Parser_Parse_dispatch p_defs kw) st1 with
+        | POk d st2 => Parser_Parse_loop f' (p_defs ++ [d]) st2
+        | PErr p k => Err p k p_defs
+        | PPanic => Panic
+        | PFuel => OutOfFuel
+        end
+      | POk false _ => Ok p_defs
+      | PErr p k => Err p k p_defs
+      | PPanic => Panic
+      | PFuel => OutOfFuel
+      end
+    end.
+
+`, cond)
+	fmt.Printf("TRANSLATED Parser_Parse %s:%d\n", rel, pos.Line)
+}
+
 func run(rootDir, out string) int {
 	root = rootDir
 	cfg := &packages.Config{
@@ -1503,6 +1643,7 @@ func run(rootDir, out string) int {
 			if c.usesDefs {
 				pd = " (p_defs : list def)"
 			}
+			usesDefsOf[n] = c.usesDefs
 			fmt.Fprintf(&transV, "  Definition %s_parseFrom%s (%s : %s) : M %s :=\n    %s.\n\n", n, pd, c.recv, n, n, body)
 			fmt.Printf("TRANSLATED %s_parseFrom %s:%d\n", n, m.file, m.line)
 		}
@@ -1563,6 +1704,7 @@ func run(rootDir, out string) int {
 			fmt.Fprintf(&transV, "  Definition Parser_%s%s : M %s :=\n    %s.\n\n", hn, params, resT, body)
 			fmt.Printf("TRANSLATED Parser_%s %s:%d\n", hn, rel, pos.Line)
 		}
+		translateParse(pkg, &transV, files)
 		transV.WriteString("End Translated.\n")
 	}()
 	if rc != 0 {
